@@ -65,7 +65,10 @@ def run_child(tasks: list, optimize: bool = True, timeout: int = 600, extra_env:
     env.pop("PYTHONIOENCODING", None)
     env.update(extra_env or {})
     cmd = [sys.executable] + (["-O"] if optimize else []) + [os.path.join(here, "child.py")]
-    p = subprocess.run(cmd, input=json.dumps(tasks), capture_output=True, text=True, env=env, timeout=timeout, encoding="utf-8")
+    try:
+        p = subprocess.run(cmd, input=json.dumps(tasks), capture_output=True, text=True, env=env, timeout=timeout, encoding="utf-8")
+    except subprocess.TimeoutExpired:
+        return {"error": "timeout"}
     if p.returncode != 0:
         return {"error": p.stderr[-800:]}
     return json.loads(p.stdout.strip().splitlines()[-1])
